@@ -9,7 +9,7 @@ macro "jstart" : tactic => `(tactic|
    have b1t := b1 t; have b2t := b2 t; have c1t := fun a b => c1 a b t; have c2t := fun a b => c2 a b t
    have c3t := fun a => c3 a t; have n1t := fun a => n1 a t; have g0t := g0 t
    simp only [hpc] at j1t j3t j4t r1t r3t r2t b1t b2t c1t c2t c3t n1t g0t
-   simp only [holds, inA, isPark, inJoin, prePtake, prePanic, retd, atPanicTake, joinedRes, atStore] at j1t j3t j4t r1t r3t r2t b1t c2t n1t g0t))
+   simp only [holds, inA, isPark, inJoin, prePtake, prePanic, retd, atPanicTake, joinedRes, atStore, isUnwound] at j1t j3t j4t r1t r3t r2t b1t c2t n1t g0t))
 
 set_option hygiene false in
 macro "jdone" : tactic => `(tactic|
